@@ -51,6 +51,8 @@ type hookCase struct {
 	ExplicitParser bool `json:"explicit_parser,omitempty"`
 	// Address: the form of the address given to Connect (network kinds; see cli.Scenario)
 	Address string `json:"address,omitempty"`
+	// PacketConn (network kinds): the connection also implements net.PacketConn (see cli.Scenario)
+	PacketConn bool `json:"packet_conn,omitempty"`
 	// CancelChunk k > 0: the caller's context is cancelled while the read that delivers the k-th chunk is in flight; that read
 	// then takes CancelBlockMs more milliseconds and returns its bytes. However the client reacts to the cancellation, the read did
 	// happen and the after-read hook must be told about it.
@@ -116,7 +118,7 @@ func scenario(c hookCase) (cli.Scenario, []byte, error) {
 		ev = append(ev, xport.Event{Kind: "eof", N: 0})
 	}
 	ev = append(ev, xport.Event{Kind: "ioerr", N: 0}) // backstop
-	return cli.Scenario{Kind: c.Kind, Req: c.Req, Stream: reply[:n], Events: ev, ReadTimeoutMs: 5000, CustomParse: c.CustomParse, Prior: c.Prior, PriorReq: priorReq(c), ExplicitParser: c.ExplicitParser && !c.CustomParse, Address: c.Address}, reply, nil
+	return cli.Scenario{Kind: c.Kind, Req: c.Req, Stream: reply[:n], Events: ev, ReadTimeoutMs: 5000, CustomParse: c.CustomParse, Prior: c.Prior, PriorReq: priorReq(c), ExplicitParser: c.ExplicitParser && !c.CustomParse, Address: c.Address, PacketConn: c.PacketConn}, reply, nil
 }
 
 func priorReq(c hookCase) *spec.Req { return cli.PriorShapeReq(c.PriorShape) }
@@ -230,6 +232,9 @@ func runHook(c hookCase) harness.Result {
 	if c.EchoFirst {
 		labels = append(labels, "echoed-request-first")
 	}
+	if c.PacketConn {
+		labels = append(labels, "connection-is-a-net.PacketConn")
+	}
 	if c.CancelChunk > 0 && c.CancelBlockMs > 0 {
 		labels = append(labels, "cancelled-while-a-read-is-in-flight")
 	}
@@ -331,6 +336,9 @@ func genHook(t *rapid.T, kinds []string) hookCase {
 	c.ExplicitParser = !cli.IsSerial(c.Kind) && !c.CustomParse && rapid.IntRange(0, 2).Draw(t, "explicit_parser") == 0
 	if !cli.IsSerial(c.Kind) {
 		c.Address = rapid.SampledFrom(cli.Addresses).Draw(t, "address")
+		if c.PacketConn = rapid.IntRange(0, 3).Draw(t, "packet_conn") == 0; c.PacketConn {
+			c.Address = "udp://localhost:5020"
+		}
 	}
 	if nch := len(c.Cuts) + 1; c.Deliver > 0 && rapid.IntRange(0, 19).Draw(t, "cancel_in_flight") == 0 {
 		c.CancelChunk = rapid.IntRange(1, nch).Draw(t, "cancel_chunk")
